@@ -411,6 +411,48 @@ def _explicit_all_valid(fidx, fbits, vi, ci):
     return True
 
 
+def _independent(fidx, mode, via):
+    """the shuffled formula is a formula of its own: changing the input afterwards does not change it, and changing it
+    does not change the input (also when nothing is shuffled at all)"""
+    F = _mk(fidx)
+    n = F.number_of_variables()
+    m = len(list(F.clauses()))
+    if mode == 0:
+        args = ('fixed', 'fixed', 'fixed')
+    elif mode == 1:
+        args = ([1] * n, list(range(1, n + 1)), list(range(m)))
+    elif mode == 2:
+        args = ('fixed', list(range(n, 0, -1)), 'fixed')
+    else:
+        args = ([-1] * n, 'fixed', list(range(m - 1, -1, -1)))
+    G = SH.Shuffle(F, *args)
+    H = SH.Shuffle(F, *args)
+    snapF = (n, [list(c) for c in F.clauses()])
+    snapG = (G.number_of_variables(), [list(c) for c in G.clauses()])
+    if via == 0:
+        G.add_clause([1, n + 1])
+        G.add_clause([])
+    elif via == 1:
+        G.add_clauses_from([[1], [-1]] if n else [[]])
+    else:
+        G.update_variable_number(n + 3)
+        G.add_clauses_from([[-(n + 2)]])
+    if (F.number_of_variables(), [list(c) for c in F.clauses()]) != snapF:
+        return False
+    if (H.number_of_variables(), [list(c) for c in H.clauses()]) != snapG:
+        return False
+    F.add_clause([-1, n + 5] if n else [1])
+    return (H.number_of_variables(), [list(c) for c in H.clauses()]) == snapG
+
+
+def h_e_independent(fidx: int, mode: int, via: int) -> bool:
+    """
+    pre: 0 <= fidx <= 11 and 0 <= mode <= 3 and 0 <= via <= 2
+    post: _
+    """
+    return untraced(_independent, pick(fidx, 0, 11), pick(mode, 0, 3), pick(via, 0, 2))
+
+
 def h_e_explicit_valid(fidx: int, fbits: int, vi: int, ci: int) -> bool:
     """
     pre: 0 <= fidx <= 11 and 0 <= fbits <= 7 and 0 <= vi <= 5 and 0 <= ci <= 5
